@@ -102,13 +102,19 @@ def run_program(prog, prefix=(), kinds=("P", "T", "K"), kill_code=-9, track_stat
     for m in monitors:
         S.monitors.append(lambda s, m=m: m(s, w, rec))
 
+    def _tick(rec):
+        rec.seq = getattr(rec, "seq", 0) + 1      # global order of op starts and returns
+        return rec.seq
+
     def run_thread(ti, ops):
         for oi, op in enumerate(ops):
             entry = {"t": ti, "i": oi, "op": op, "returned": False, "exc": None}
             rec.ops.append(entry)
+            entry["seq_start"] = _tick(rec)
             try:
                 r = do_op(ctx, op, entry)
                 entry["returned"] = True
+                entry["seq_end"] = _tick(rec)
                 if r == "EXIT":
                     return "EXIT"
             except (SimAbort, SimKilled):
@@ -131,9 +137,11 @@ def run_program(prog, prefix=(), kinds=("P", "T", "K"), kill_code=-9, track_stat
         for oi, op in enumerate(ops0):
             entry = {"t": 0, "i": oi, "op": op, "returned": False, "exc": None}
             rec.ops.append(entry)
+            entry["seq_start"] = _tick(rec)
             try:
                 r = do_op(ctx, op, entry)
                 entry["returned"] = True
+                entry["seq_end"] = _tick(rec)
             except (SimAbort, SimKilled):
                 raise
             except BaseException as e:
@@ -209,6 +217,15 @@ def _pool_kwargs(w, pool):
         kw.update(initializer=tasks.init_fail, initargs=("I",))
     elif pool.get("init") == "fail3":
         kw.update(initializer=tasks.init_fail_from_3rd, initargs=("I",))
+    elif pool.get("init") == "ok-falsy":
+        kw.update(initializer=tasks.HOOKS, initargs=("I",))
+    elif pool.get("init") == "ok-nevertrue":
+        kw.update(initializer=tasks.NEVERTRUE, initargs=("I",))
+    elif pool.get("init") == "ok-method":
+        kw.update(initializer=tasks.HOOKS.run, initargs=("I",))
+    elif pool.get("init") == "ok-partial":
+        import functools
+        kw.update(initializer=functools.partial(tasks.init, "I"), initargs=())
     return kw
 
 
@@ -293,6 +310,18 @@ def do_op(ctx, op, entry):
             f = e.submit(tasks.ident, key, tasks.SlowArg(*a))
         elif kind == "slow_bad_arg":
             f = e.submit(tasks.ident, key, tasks.SlowBadArg(*a))
+        elif kind == "raise_badstr":
+            f = e.submit(tasks.raise_badstr, key)
+        elif kind == "raise_unprintable":
+            f = e.submit(tasks.raise_unprintable, key)
+        elif kind == "raise_badrepr_arg":
+            f = e.submit(tasks.raise_with_arg, key, tasks.BadRepr())
+        elif kind == "raise_badrepr_kwarg":
+            f = e.submit(tasks.raise_with_arg, key, opt=tasks.BadRepr())
+        elif kind == "raise_badrepr_fn":
+            f = e.submit(tasks.BadReprCallable(), key)
+        elif kind == "ok_badrepr_arg":
+            f = e.submit(tasks.ident, key, tasks.BadRepr())
         elif kind == "leak":
             f = e.submit(tasks.leak, key)
         elif kind == "spawn_child":
@@ -486,7 +515,8 @@ def do_op(ctx, op, entry):
         entry["value"] = dict(n_workers=e._processes.raw_len(), max_workers=e._max_workers,
                               broken=W.rawflag(e._flags, "broken") is not None,
                               shutdown=W.rawflag(e._flags, "shutdown"),
-                              slot=hh["slot_ksem"].value, queue_size=hh["queue_size"])
+                              slot=hh["slot_ksem"].value, queue_size=hh["queue_size"],
+                              pids=e._processes.raw_keys(), now=S.now)
         del e
     elif name == "expect_inside":
         n = op[1]
